@@ -181,7 +181,7 @@ def c04(tier, seed):
 @plan("C05")
 def c05(tier, seed):
     return dict(
-        jobs=[dict(kind="scale", pid="C05", n_cases=(4 if tier == "quick" else 10), kinds=["chain_beside_sequential", "fan_below_sequential", "fan_below_sequential", "roots"], nmin=150, nmax=(350 if tier == "quick" else 700), **_seeds(seed + 313, k)) for k in range(1 if tier == "quick" else 4)] + medium_jobs("C05", tier, seed) + w3_jobs(seed) + sched_jobs(tier, seed, gen=dict(nmax=8, mc_max=4, seq_rate=0.4), selections=True)
+        jobs=[dict(kind="scale", pid="C05", n_cases=(6 if tier == "quick" else 12), kinds=["chain_beside_sequential", "chain_beside_sequential", "fan_below_sequential", "fan_below_sequential"], nmin=150, nmax=(350 if tier == "quick" else 700), **_seeds(seed + 313, k)) for k in range(1 if tier == "quick" else 4)] + medium_jobs("C05", tier, seed) + w3_jobs(seed) + sched_jobs(tier, seed, gen=dict(nmax=8, mc_max=4, seq_rate=0.4), selections=True)
         + diff_jobs("C05", tier, seed, dict(flags=0.2, nest=0.3, nest_flag=0.2, share_fns=0.3, seq=0.4), 2, nj_scale=0.25, only=[])
         # nodes whose function is a DAG object, made sequential by a configuration reload: they overlap nothing either
         + [dict(kind="env", pid="C05", scenarios=["reentrant"], how="dag_object_as_node_function", n_cases=(60 if tier == "quick" else 500),
